@@ -29,7 +29,8 @@ SPECS = {
     "thorough": [spec(k, [], bound=1, faults=F, ly=1, oe=oe, a=a) for k in _q + ["flyonly", "relscan2", "listscan", "tworuns"] for oe in ("p", "s") for a in (0, 1)]
     + [spec(k, [], bound=2, faults=F, ly=1, oe="s") for k in ("scan2", "bare", "count2")]
     + [spec(k, PAUSE1, bound=2, faults=("raise",), ly=1, oe=oe, a=a) for k in ("bare", "count2", "scan2", "nested", "cleanup") for oe in ("p", "s") for a in (0, 1)]
-    + [spec(k, PAUSE1, bound=2, faults=("fail", "fail_late"), ly=1, oe=oe, a=a) for k in ("bare", "twomotors", "count2", "scan2") for oe in ("p", "s") for a in (0, 1)],
+    + [spec(k, PAUSE1, bound=2, faults=("fail", "fail_late"), ly=1, oe=oe, a=a) for k in ("bare", "twomotors", "count2", "scan2") for oe in ("p", "s") for a in (0, 1)]
+    + [spec(k, PAUSE1, bound=2, faults=("fail_if_stopped",), ly=1, oe=oe, a=a) for k in ("twomotors", "scan2", "longmove") for oe in ("p", "s") for a in (0, 1)],
 }
 
 
